@@ -22,7 +22,7 @@ def programs(draw, tier):
     helpers = []
     # ---- payload of the subject task
     kind = draw(st.sampled_from(['sleeps', 'sleeps', 'lock', 'queue', 'borrow', 'scope', 'instant',
-                                 'mixed', 'cleanup', 'cleanup']))
+                                 'mixed', 'cleanup', 'cleanup', 'nested_borrow']))
     pay = []
     n = draw(st.integers(0, 4))
     for _ in range(n):
@@ -42,6 +42,12 @@ def programs(draw, tier):
     if kind == 'cleanup':
         pay.append({'op': 'cleanup', 'body': [sleep(), sleep()],
                     'final': [{'op': 'sleep', 'd': draw(st.sampled_from([0, 1, 2, 4]))}, sleep()]})
+    if kind == 'nested_borrow':
+        # a borrowed share of which a child in a nested scope holds a part
+        pay.append({'op': 'borrow', 'r': 'R', 'amounts': {'a': 2}, 'as': 'hp', 'body': [
+            {'op': 'scope', 'children': [{'name': 's0c', 'steps': [
+                {'op': 'borrow', 'from': 'hp', 'amounts': {'a': draw(st.integers(1, 2))}, 'body': [sleep(), {'op': 'sleep', 'd': 2}]}]}],
+             'body': [sleep()]}]})
     if kind in ('scope',):
         pay.append({'op': 'scope', 'children': [{'name': 's0c', 'steps': [sleep(), sleep()]}],
                     'body': [sleep()]})
